@@ -11,6 +11,7 @@ EXPLANATION = ("C14: (R1) the function-map decoder's running state (column reset
 NOT_DECIDED = "agreement with Metro's consumer on all metadata strings (value-level)."
 
 RULES = {
+    "C14.RG": lambda ctx: __import__("rules.foundations", fromlist=["x"]).no_global_state(ctx, "C14.RG"),
     "C14.R7": lambda ctx: __import__("rules.decoderrules", fromlist=["x"]).dispatch(ctx, "C14.R7"),
     "C14.R6": lambda ctx: __import__("rules.decoderrules", fromlist=["x"]).hermes_regular_part(ctx, "C14.R6"),
     "C14.RL": lambda ctx: __import__("rules.common", fromlist=["x"]).loop_exit_rule(ctx, "C14.RL", {'hermes::decode_hermes': 0}),
